@@ -12,6 +12,17 @@ from rrlib import *
 
 MODELS = ('GR4J', 'Sacramento', 'Simhyd', 'Surm', 'RunoffCoefficient')
 EXACT = {'RunoffCoefficient'}
+# model-vs-code tolerances (rtol, factor on rrlib.abs_tol).  Sacramento, Simhyd and Surm use libm only through exp/pow of
+# well-conditioned arguments: code and extracted kernel were measured to agree to 1e-14 (bit-identical in all but ~0.3 % of the
+# Sacramento runs, which sit on a floor()/branch threshold and are handled by the measured-sensitivity second chance), so they are
+# compared at 1e-12.  GR4J keeps 1e-9: tanh/pow of Go and C differ by an ulp and its percolation formula S*(1-(1+z)^(-1/4))
+# loses significance for small z, so two correct libms differ by up to ~1e-9 relative on small stores.
+CORR_TOL = {'GR4J': (1e-9, 1.0), 'Sacramento': (1e-12, 1e-3), 'Simhyd': (1e-12, 1e-3), 'Surm': (1e-12, 1e-3)}
+
+
+def corr_tol(m, ps, st0, rain):
+    rt, fac = CORR_TOL[m]
+    return rt, fac * abs_tol(ps, st0, rain)
 CORPUS = os.path.join(VERIF, 'corpus', 'C10')
 
 
@@ -34,6 +45,7 @@ def main():
     lengths = [0, 1, 2, 7, 40, 400, 400] if quick else [0, 1, 2, 7, 40, 400, 400, 1500]
 
     # ---- stage 0: parameter vectors and the model's own initial states
+    closed = [0]
     vecs = []        # (model, params)
     for model in MODELS:
         for k in range(nvec[model]):
@@ -48,6 +60,15 @@ def main():
                     h = rng.randint(1, 8) / 2.0
                     ps[3] = min(4.0, max(0.5, h + rng.choice([0.0, 1e-9, -1e-9, 1e-3, -1e-3, 0.25])))
             vecs.append((model, ps))
+    uhcls = {}
+    for (m, ps) in vecs:
+        if m == 'Sacramento':
+            w = ps[17:22]
+            dev = abs(sum(w) - 1.0)
+            k = ('single-ordinate' if sum(1 for v in w if v > 0) == 1 else 'sum-exactly-1' if dev == 0.0 else 'sum-off-by<1e-8' if dev < 1e-8 else
+                 'sum-off-by-1e-8..1e-6' if dev < 1e-6 else 'sum-off-by-1e-6..1e-3' if dev < 1e-3 else 'grossly-unnormalised')
+            uhcls[k] = uhcls.get(k, 0) + 1
+            closed[0] += (ps[11] == 0.0 and ps[12] == 0.0)
     ilines = [init_line(m, ps) for (m, ps) in vecs]
     iimpl = run_impl(ilines)
     imodel = run_model(ilines)
@@ -97,7 +118,7 @@ def main():
             c.count((m, cs['ps'], cs['st0'], cs['rain'], cs['pet']), nontrivial=wet and len(cs['rain']) > 0)
             nmodel[m] = nmodel.get(m, 0) + 1
             nreg[cs['regime']] = nreg.get(cs['regime'], 0) + 1
-            diff = kresults_agree(ri, rm) if m in EXACT else kresults_agree(ri, rm, rtol=1e-9, atol=abs_tol(cs['ps'], cs['st0'], cs['rain']))
+            diff = kresults_agree(ri, rm) if m in EXACT else kresults_agree(ri, rm, *corr_tol(m, cs['ps'], cs['st0'], cs['rain']))
             if diff:
                 retry.append((i, diff))
             desc = {'model': m, 'params': cs['ps'], 'initial_states': cs['st0'], 'regime': cs['regime'], 'kind': cs['kind'],
@@ -130,7 +151,7 @@ def main():
         for (i, diff), lp in zip(retry, pres):
             cs = cases[i]
             d2 = 'exact comparison required' if cs['model'] in EXACT else \
-                conditioned_agree(parse_kresult(impl[i]), parse_kresult(model[i]), parse_kresult(lp), 1e-9, abs_tol(cs['ps'], cs['st0'], cs['rain']))
+                conditioned_agree(parse_kresult(impl[i]), parse_kresult(model[i]), parse_kresult(lp), *corr_tol(cs['model'], cs['ps'], cs['st0'], cs['rain']))
             if d2:
                 c.corr_broken.append({'case': [cs['model'], cs['ps'], cs['regime'], len(cs['rain']), cs['kind']], 'diff': diff,
                                       'conditioned': d2, 'line': lines[i][:4000]})
@@ -169,10 +190,10 @@ def main():
         ri, rm = parse_kresult(li), parse_kresult(lm)
         c.count(('odd', m, ps, st, rain, pet), nontrivial=False)
         odd_panics += ri[0] != 'OK'
-        diff = kresults_agree(ri, rm, rtol=1e-9, atol=abs_tol(ps, st, rain))
+        diff = kresults_agree(ri, rm, *corr_tol(m, ps, st, rain))
         if diff and ri[0] == 'OK' and rm[0] == 'OK':
             ps2, rain2, pet2 = perturb_case(m, ps, rain, pet)
-            diff = conditioned_agree(ri, rm, parse_kresult(run_model([kcase(m, ps2, st, [rain2, pet2])])[0]), 1e-9, abs_tol(ps, st, rain))
+            diff = conditioned_agree(ri, rm, parse_kresult(run_model([kcase(m, ps2, st, [rain2, pet2])])[0]), *corr_tol(m, ps, st, rain))
         if diff:
             c.corr_broken.append({'case': ['malformed', m, ps, len(st), len(rain)], 'diff': diff, 'line': line[:4000]})
 
@@ -186,15 +207,15 @@ def main():
     run_and_judge(hot, 's2')
 
     c.cov['rule'] = ('parameter vectors drawn from the ranges of Properties/C10.v (interior, log-uniform for capacities, and end points with '
-                     'probability 0.3; GR4J x4 additionally on both sides of every integer and half-integer; x2 = 0 / x2 <= 0 classes), '
+                     'probability 0.3; GR4J x4 additionally on both sides of every integer and half-integer; x2 = 0 / x2 <= 0 classes; Sacramento unit-hydrograph proportions from nine classes: defaults, random normalised, stored as float32 or with 7/6/5 decimals, sum 1 +- 1e-9..1e-5, grossly un-normalised, single ordinate; a quarter of the Sacramento vectors with side = ssout = 0, where the budget is an identity up to the unit-hydrograph buffer), '
                      'each run under the five forcing regimes (dry, wet, intermittent with long dry spells, single pulse, extreme storm up to '
                      '1500 mm/day) for T in {0,1,2,7,40,400}; initial states = the model\'s own InitialiseStates (INIT command), '
                      'plus prefix runs (stores observed in mid-run), hot starts from those model-produced states, the corpus witnesses of the three fixed Sacramento defects (regressions) and a small malformed stream (short / over-long state vectors, model-vs-code only); every case run through '
-                     'sim.Catalog and through the extracted Coq kernel (rtol 1e-9, atol 1e-12*(1+largest parameter/initial store/daily rain); RunoffCoefficient bit-exact) and judged by the '
-                     'C10 oracle with tolerance 1e-9*(1+sum rain); non-trivial = T>0 and some rain; distinct = distinct (model, parameters, initial states, series)')
-    c.finish(extra_cov={'cases_per_model': nmodel, 'cases_per_regime': nreg, 'parameter_vectors': len(vecs), 'malformed_cases': len(odd), 'malformed_panics_impl': odd_panics, 'known_finding_cases': nknown, 'sacramento_theorem_coverage': sacstat, 'ill_conditioned_cases_accepted': illcond[0], 'exhaustive': False},
+                     'sim.Catalog and through the extracted Coq kernel (GR4J: rtol 1e-9, atol 1e-12*scale; Sacramento, Simhyd, Surm: rtol 1e-12, atol 1e-15*scale, scale = 1+largest parameter/initial store/daily rain; RunoffCoefficient bit-exact) and judged by the '
+                     'C10 oracle with tolerance 1e-9*(1+sum rain), the Sacramento whole-run budget incl. the final land stores with 1e-12*(1+sum rain+initial stores); non-trivial = T>0 and some rain; distinct = distinct (model, parameters, initial states, series)')
+    c.finish(extra_cov={'cases_per_model': nmodel, 'cases_per_regime': nreg, 'parameter_vectors': len(vecs), 'malformed_cases': len(odd), 'malformed_panics_impl': odd_panics, 'known_finding_cases': nknown, 'sacramento_theorem_coverage': sacstat, 'sacramento_uh_sum_classes': uhcls, 'sacramento_closed_budget_vectors': closed[0], 'ill_conditioned_cases_accepted': illcond[0], 'exhaustive': False},
              assumptions=['theorems are over exact reals (RArith); float round-off is covered only by the tolerance oracle on the implementation outputs',
-                          'OCaml libm stands in for Go libm (exp, pow, tanh) in the correspondence run: rtol 1e-9',
+                          'OCaml libm stands in for Go libm (exp, pow, tanh) in the correspondence run: rtol 1e-9 for GR4J, 1e-12 for Sacramento/Simhyd/Surm (measured agreement 1e-14)',
                           'Sacramento theorems assume the store invariant on the initial state (true for InitialiseStates) and PET <= uztwm+lztwm every day; '
                           'runs outside that (hot starts are not classified, PET above the tension capacity) are covered by the oracle only: '
                           'their number is measured in sacramento_theorem_coverage',
